@@ -601,7 +601,8 @@ func newInst(s *scenario, run runFunc) *inst {
 func (in *inst) addrInUse() bool {
 	select {
 	case <-in.returned:
-		return !in.s.portHeld && strings.Contains(in.errText, "address already in use")
+		// only this server's own address counts: somebody took the port between our close and its listen
+		return !in.s.portHeld && strings.Contains(in.errText, "address already in use") && strings.Contains(in.errText, in.addr)
 	default:
 		return false
 	}
